@@ -34,6 +34,10 @@ func parseTextDescription(data []byte) (TextDescription, error) {
 		return desc, err
 	}
 
+	if asciiCount == 0 || int64(asciiCount) > int64(reader.Len()) {
+		return desc, fmt.Errorf("invalid ASCII description length %d", asciiCount)
+	}
+
 	asciiBytes := make([]byte, asciiCount-1)
 	for i := 0; i < len(asciiBytes); i++ {
 		asciiBytes[i], err = reader.ReadByte()
